@@ -75,7 +75,7 @@ class ProgGen:
     def unit_str(self, node):
         rng = self.rng
         def one():
-            if node == "C" and rng.random() < 0.3:
+            if node == "C" and rng.random() < 0.6:
                 return rng.choice(["smoot", "kilosmoot", "smt", "zork", "millizorks"])
             return rng.choice(UNIT_POOL)
         if rng.random() < 0.55:
@@ -214,7 +214,15 @@ class RegistriesWorld:
         kr = streams.get("knobs")
         pg = ProgGen(streams.get("program"))
         size = kr.choice([6, 10, 14, 20, 25])
-        program = [pg.step() for _ in range(size)]
+        program = []
+        # the other registries usually exist early, so that most of the run has several parties
+        if kr.random() < 0.5:
+            pg.nodes.append("C")
+            program.append({"id": pg.sid(), "k": "new_registry_C"})
+        if kr.random() < 0.4:
+            pg.nodes.append("B")
+            program.append({"id": pg.sid(), "k": "copy_registry"})
+        program += [pg.step() for _ in range(size)]
         return {"world": "registries", "prop": self.prop, "knobs": {"numtype": kr.choice(["float", "float", "Fraction", "Decimal"])},
                 "program": program,
                 "faults": {"seed": 0, "rates": {}, "off": []}}
